@@ -206,6 +206,7 @@ type runRec struct {
 	K2      int      `json:"k2"`
 	Kind    string   `json:"kind"`
 	At      string   `json:"at"`
+	At2     string   `json:"at2"`
 	N       int      `json:"n"`
 	Outcome string   `json:"outcome"`
 	Err     string   `json:"err"`
@@ -258,11 +259,15 @@ func judge(sc *scenario, targets []string, r *fsx.Result, rec *runRec) {
 	if rec.Diff == nil {
 		rec.Diff = []string{}
 	}
-	faulted := strings.Fields(rec.At)
 	excused := func(name string) bool {
 		// an entry whose own removal (or whose parent's removal) was made to fail necessarily remains
-		if len(faulted) == 2 && (faulted[0] == "remove" || faulted[0] == "removeall") {
-			return name == faulted[1] || strings.HasPrefix(name, faulted[1]+"/")
+		for _, at := range []string{rec.At, rec.At2} {
+			faulted := strings.Fields(at)
+			if len(faulted) == 2 && (faulted[0] == "remove" || faulted[0] == "removeall") {
+				if name == faulted[1] || strings.HasPrefix(name, faulted[1]+"/") {
+					return true
+				}
+			}
 		}
 		return false
 	}
@@ -317,8 +322,13 @@ func judge(sc *scenario, targets []string, r *fsx.Result, rec *runRec) {
 	rollbackStepFailed := rec.K2 > 0 || sc.BadAt > 0
 	if rollbackStepFailed {
 		mentions := false
-		for name := range after {
-			if strings.Contains(name, "backup") && strings.Contains(rec.Err, baseName(strings.Split(name, "/")[1])) {
+		fullErr := ""
+		if r.Err != nil {
+			fullErr = r.Err.Error()
+		}
+		for name := range r.After { // real (not canonicalised) names
+			parts := strings.Split(name, "/")
+			if len(parts) >= 2 && strings.Contains(parts[1], "backup") && strings.Contains(fullErr, parts[1]) {
 				mentions = true
 			}
 		}
@@ -486,8 +496,9 @@ func main() {
 			for _, k := range ks {
 				k2s := []int{0}
 				if tier == "thorough" && mode == "c06" && (sc.Name == "api.InstallFonts/in=[0 1]/pre=[0]/bad=0" || strings.HasPrefix(sc.Name, "api.ImportCertificates/n=2")) {
-					for j := k + 1; j <= n+6; j += 1 {
-						k2s = append(k2s, j)
+					// a seeded sample of second-fault positions after k (the full quadratic space takes too long)
+					for j := 0; j < 14; j++ {
+						k2s = append(k2s, k+1+rng.Intn(n+6-k))
 					}
 				}
 				for _, k2 := range k2s {
@@ -496,6 +507,9 @@ func main() {
 					rec := runRec{T: tid, Op: sc.Name, Cfg: "fault", K: k, K2: k2, Kind: "error", N: len(r.Events), Outcome: r.Outcome(), Err: errStr(&r)}
 					if k <= len(r.Events) {
 						rec.At = r.Events[k-1].Op + " " + r.Events[k-1].A
+					}
+					if k2 > 0 && k2 <= len(r.Events) {
+						rec.At2 = r.Events[k2-1].Op + " " + r.Events[k2-1].A
 					}
 					judge(&sc, targets, &r, &rec)
 					emit(&r, fmt.Sprintf("%s/fault@%d,%d", sc.Name, k, k2))
